@@ -105,7 +105,7 @@ macro_rules! mutex_seq {
     }
   };
 }
-mutex_seq!(c10_t_mutex_seq_n3, 3, 5);
+mutex_seq!(c10_x_mutex_seq_n3, 3, 5);
 mutex_seq!(c10_x_mutex_seq_n6, 6, 7);
 
 // ---------------------------------------------------------------- rwlock sequential
@@ -310,7 +310,7 @@ fn actor_cancel_mutex_future(_a: sched::ActorId) {
 /// at any synchronisation point of the cancel): the next pending future must end up woken.
 #[kani::proof]
 #[kani::unwind(5)]
-fn c10_t_mutex_cancel_vs_unlock() {
+fn c10_x_mutex_cancel_vs_unlock() {
   let m_stack = HybridMutex::new(0u8);
   let m: &'static HybridMutex<u8> = unsafe { &*(&m_stack as *const HybridMutex<u8>) }; // on the stack: CBMC tracks stack objects precisely
   let mut held = m.try_lock();
@@ -540,7 +540,7 @@ fn c10_q_mutex_cancel_orders() {
 /// Same for two queued writers of the rwlock.
 #[kani::proof]
 #[kani::unwind(5)]
-fn c10_t_rw_cancel_orders() {
+fn c10_x_rw_cancel_orders() {
   let l = HybridRwLock::new(0u8);
   let held = l.try_write();
   let mut f1 = Some(mk_write(&l));
